@@ -7,10 +7,12 @@ MC   CompressMC (spec/Compress.tla): a small composer state machine; in every
      sizes), RejectsMalformed, AcceptsSparse, Bounded (what the decoder
      materialises <= f(capacity)).  Self-tests of the model: with the
      public-input sort removed (SortPI = FALSE) the invariants must FAIL.
-     RejectsTrailing is checked by its own configuration: the container is
-     modelled as the code reads it (deflate stream, then an ignored tail), so
-     it fails -- the known finding; it is only reported as a violation when
-     the real code is seen to accept such an input (below).
+     RejectsTrailing holds for the container as the code reads it now
+     (inflate_exact; TailIgnored = FALSE).  With TailIgnored = TRUE -- the
+     reading before the fix, the inflater stopping at the end of the stream --
+     it must FAIL (self-test; that was the finding).  If the real code is
+     seen to accept bytes after the stream again, the binding reports it with
+     the key {compile_with_compressed, tail-after-deflate-stream}.
 MBT  CompressScen (TLC) prints the reachable composers; a seeded sample is
      turned into programs for the real composer; further families are listed
      in `families()`.
@@ -30,7 +32,7 @@ ENV = {"JDK_JAVA_OPTIONS": "-Xss1g"}   # main-thread stack (initial states, cons
 WORKERS = int(os.environ.get("VERIF_WORKERS", "8"))
 FINDING_KEY = {"site": "compile_with_compressed", "class": "tail-after-deflate-stream"}
 ALL_INV = ["RoundTripKeys", "CompressDeterministic", "DictsBijective", "SigmaIsNextInClass", "CapacityAgrees",
-           "RejectsMalformed", "AcceptsSparse", "Bounded"]
+           "RejectsMalformed", "AcceptsSparse", "Bounded", "RejectsTrailing"]
 
 
 # ------------------------------------------------------------------- MC ---
@@ -61,14 +63,14 @@ def model_check(ck, tier):
         raise vlib.ToolError("vacuous model: removing the public-input sort is not detected by "
                              "RoundTripKeys/CompressDeterministic\n" + st.out[-2000:])
     ck.notes.append("model self-test: SortPI=FALSE violates RoundTripKeys (as it must)")
-    # the modelled finding
+    # self-test: the pre-fix reading of the container (tail ignored) must violate RejectsTrailing
     tail = vlib.tlc("CompressMC", cfg="CompressMC_tail.cfg", workers=2, timeout=600, env=ENV,
                     check_error=False)
-    if tail.error:
-        raise vlib.ToolError("CompressMC_tail failed:\n" + tail.out[-2000:])
-    ck.extra["model_RejectsTrailing"] = "violated (container modelled as the code reads it)" \
-        if tail.violated else "holds"
-    return tail.violated
+    if tail.error or not tail.violated:
+        raise vlib.ToolError("vacuous model: RejectsTrailing does not fail when the tail is ignored:\n"
+                             + tail.out[-2000:])
+    ck.notes.append("model self-test: TailIgnored=TRUE (the code before the fix) violates RejectsTrailing")
+    return True
 
 
 # ------------------------------------------------------------ scenarios ---
@@ -234,6 +236,7 @@ def validate(ck, scens, tier, model_tail_violated, strict=True):
         raise vlib.ToolError("TraceCompress consumed %d/%d lines, judged %d/%d\n%s"
                              % (tv.diameter - 1, len(events), len(judged), len(need), tv.out[-3000:]))
     ck.traces += 1
+    finding_lines = set(int(f[1]) for f in findings)
     counts = {"packed": 0, "route_ok": 0, "route_err": 0, "hostile_err": 0, "hostile_ok": 0}
     for i, e in enumerate(events, 1):
         if e["ev"] == "table":
@@ -257,7 +260,7 @@ def validate(ck, scens, tier, model_tail_violated, strict=True):
                 ck.sample({"circuit": e["id"], "class": e["class"], "input_bytes": e["len"], "res": e["res"],
                            "peak_heap": e["peak"]}, limit=5)
         ck.case(key)
-        if f[0] == "MISMATCH":
+        if f[0] == "MISMATCH" and i not in finding_lines:
             site = {"packed": "Circuit::compress", "route": "compile", "hostile": "compile_with_compressed"}[e["ev"]]
             ck.violation(
                 "%s: the specification predicts %s, the implementation did %s (scenario %s)"
@@ -274,9 +277,8 @@ def validate(ck, scens, tier, model_tail_violated, strict=True):
         ck.violation(
             "compile_with_compressed accepts a description followed by %d extra bytes after the deflate "
             "stream (keys %s those of the clean description); the property asks for an error "
-            "(model: CompressMC!RejectsTrailing %s)"
-            % (e["container"]["tail"], "identical to" if e["same_keys"] else "different from",
-               "fails too" if model_tail_violated else "holds"),
+            "(CompressMC!RejectsTrailing; the model predicts InvalidCompressedCircuit)"
+            % (e["container"]["tail"], "identical to" if e["same_keys"] else "different from"),
             {"key": dict(FINDING_KEY), "scenario": {k: v for k, v in by_id.get(e["id"], {}).items() if k != "state"},
              "event": {k: v for k, v in e.items() if k != "container"}, "tail_bytes": e["container"]["tail"]})
     tails = [e for e in events if e["ev"] == "hostile" and e["container"]["tail"] > 0]
